@@ -1,4 +1,27 @@
 // harness TU for SE2 (double)
 #define HX_HAS_ROTATION 1
 #include "generic.h"
-namespace hx { void run_SE2(const Req& r, Resp& R) { run<manif::SE2d>(r, R); } }
+namespace hx {
+template <> struct Extra<manif::SE2d> {
+  static bool run(const Req& r, Resp& R) {
+    const auto& a = r.a;
+    using G = manif::SE2d;
+    if (r.op == "ctor_xyt" && a.size() == 3) { G g(a[0], a[1], a[2]); pushM(R.out, g.coeffs()); return true; }
+    if (r.op == "angle" && a.size() == 4) { Operand<G, 'o'> x(a.data()); R.out.push_back(x.get().angle()); return true; }
+    if (r.op == "ctor_iso" && a.size() == 9) {
+      Eigen::Transform<double, 2, Eigen::Isometry> h;
+      for (int i = 0; i < 3; ++i) for (int j = 0; j < 3; ++j) h.matrix()(i, j) = a[3 * i + j];
+      G g(h); pushM(R.out, g.coeffs()); return true;
+    }
+    if (r.op == "accessors" && a.size() == 4) {
+      Operand<G, 'o'> x(a.data());
+      R.out.push_back(x.get().x()); R.out.push_back(x.get().y()); R.out.push_back(x.get().real());
+      R.out.push_back(x.get().imag()); R.out.push_back(x.get().angle());
+      pushM(R.out, x.get().translation()); pushM(R.out, x.get().isometry().matrix());
+      return true;
+    }
+    return false;
+  }
+};
+void run_SE2(const Req& r, Resp& R) { run<manif::SE2d>(r, R); }
+}
